@@ -296,6 +296,25 @@ def literal_statements():
         # the same value in a target and in WHERE
         out.append((f'literal-where-{a}-{b}', ast.Select([T(Fn('str', [Cn(a)]), 'p')], ast.Table('lt'), ast.Less(x, Cn(b)), None, None, None, None, None),
                     [(str(a),) for r in rows if r < b]))
+    # row-independent conditions: NULL and FALSE select no row, TRUE selects every row (also when the compiler folds them)
+    null_int = Fn('int', [Cn('x')])                       # int('x') is NULL
+    conds = [
+        ('null', Cn(None), None), ('false', Cn(False), False), ('true', Cn(True), True),
+        ('1=2', ast.Equal(Cn(1), Cn(2)), False), ('1=1', ast.Equal(Cn(1), Cn(1)), True),
+        ('1/0>1', ast.Greater(ast.Div(Cn(1), Cn(0)), Cn(1)), None), ('5%0=0', ast.Equal(ast.Mod(Cn(5), Cn(0)), Cn(0)), None),
+        ("int('x')=1", ast.Equal(null_int, Cn(1)), None), ("int('x') IS NULL", ast.IsNull(null_int), True),
+        ('NOT NULL', ast.Not(Cn(None)), True), ('NULL AND FALSE', ast.And([Cn(None), Cn(False)]), None),
+        ('NULL OR TRUE', ast.Or([Cn(None), Cn(True)]), True), ('NULL OR FALSE', ast.Or([Cn(None), Cn(False)]), None),
+        ("'a'~'b'", ast.Match(Cn('a'), Cn('b')), False), ("2 BETWEEN 1 AND int('x')", ast.Between(Cn(2), Cn(1), null_int), None),
+        ('1 IN (2,3)', ast.In(Cn(1), Cn([2, 3])), False), ('coalesce(NULL-ish, TRUE)', Fn('coalesce', [ast.Greater(null_int, Cn(0)), Cn(True)]), True),
+    ]
+    rows = [D('2'), D('0.5')]
+    for tag, cond, truth in conds:
+        exp = [(r,) for r in rows] if truth is True else []
+        out.append((f'constant-where:{tag}', ast.Select([T(x, None)], ast.Table('lt'), cond, None, None, None, None, None), exp))
+        out.append((f'constant-where-and:{tag}', ast.Select([T(x, None)], ast.Table('lt'), ast.And([ast.Greater(x, Cn(1)), cond]), None, None, None, None, None),
+                    [(r,) for r in rows if r > 1] if truth is True else []))
+        out.append((f'constant-target:{tag}', ast.Select([T(cond, 'c')], ast.Table('lt'), None, None, None, None, None, None), [(truth,)] * 2))
     return out
 
 
@@ -314,7 +333,8 @@ def check_literals(acc, only=None):
             continue
         acc.count('rowsteps', len(got))
         if [tuple(map(typed, r)) for r in got] != [tuple(map(typed, r)) for r in exp]:
-            acc.violation('literals:same-value-different-literal', f'{show(stmt)}: got {got!r}, expected {exp!r}', {'kind': 'literals', 'which': tag})
+            fp = f'literals:{tag.split(":")[0]}' if tag.startswith('constant-') else 'literals:same-value-different-literal'
+            acc.violation(fp, f'{show(stmt)}: got {got!r}, expected {exp!r}', {'kind': 'literals', 'which': tag})
 
 
 # ---- driver -------------------------------------------------------------------------------
